@@ -204,6 +204,15 @@ pub fn run(ctx: &RunCtx) -> Outcome {
             return o;
         }
     }
+    {
+        // texts with characters on the UTF-8 length-class boundaries (the VM steps over characters itself)
+        let mut small = space(&gen::core_cfg(), 2, false);
+        small.extend(c3.iter().filter(|x| x.size() <= 2).cloned());
+        let small = gen::dedup_by_print(small);
+        if !stage(ctx, &mut o, &p, "small bases x all single sites x UTF-8 edge texts", &expand(&small), &gen::edge_texts()) {
+            return o;
+        }
+    }
     let n = if quick { 4 } else { 5 };
     let b4: Vec<Node> = space(&gen::core_cfg(), n, false).into_iter().filter(|x| x.size() > 3).collect();
     let t4 = {
